@@ -3,7 +3,7 @@
    PARTIAL by nature: the theorems cover the modelled code paths (NoPanic.v), in which every
    partial Go operation is an explicit [Panic] outcome; the rest of the library is searched. *)
 From Coq Require Import String.
-From Verif Require Import Base NoPanic NoPanicProofs.
+From Verif Require Import Base NoPanic NoPanicProofs NoPanicConfig NoPanicConfigProofs.
 Open Scope Z_scope.
 
 (* macro.NewMacro + Expand: no input bytes and no transaction state (nil collections included)
@@ -120,3 +120,29 @@ Theorem C07_memo_untagged_refuted :
   exists calls, (forall s x f, In (s, x, f) calls -> In s np_sites_old) /\ np_memo_run [] calls = true.
 Proof. exact np_memo_untagged_refuted. Qed.
 Print Assumptions C07_memo_untagged_refuted.
+
+(* ---- one level up: whole configurations and whole transactions (NoPanicConfig.v) ---- *)
+
+(* compiling ANY configuration text (parseString line assembly, evaluateLine dispatch and quote trim,
+   SecAction / SecRule / SecMarker / SecRuleRemoveByMsg, ParseRule, Init of id phase msg logdata tag
+   pass log nolog auditlog noauditlog setvar, RuleGroup.Add) never panics; directives and actions
+   outside the fragment yield Ok None ("unmodelled"), never Panic *)
+Theorem C07_compile_config_total : forall text, np_compile_config text <> Panic.
+Proof. exact np_compile_config_total. Qed.
+Print Assumptions C07_compile_config_total.
+
+(* what request time relies on: every setvar of every accepted configuration carries its key macro *)
+Theorem C07_compile_config_wf : forall text rules, np_compile_config text = Ok (Some rules) -> np_rules_wf rules.
+Proof. exact np_compile_config_wf. Qed.
+Print Assumptions C07_compile_config_wf.
+
+(* the five phases over any well-formed rule list, any collections (nil ones included), any TX state *)
+Theorem C07_run_config_total : forall base rules kv, np_rules_wf rules -> np_run_config base rules kv <> Panic.
+Proof. exact np_run_config_total. Qed.
+Print Assumptions C07_run_config_total.
+
+(* whole pipeline: for every configuration text and every state of the other collections, compiling and
+   then driving a transaction through all phases never panics *)
+Theorem C07_compile_and_run_total : forall base text, np_compile_and_run base text <> Panic.
+Proof. exact np_compile_and_run_total. Qed.
+Print Assumptions C07_compile_and_run_total.
